@@ -32,6 +32,7 @@ type Verdict struct {
 	Oracle   []string // property violations observed on the implementation
 	Mismatch []string // model / implementation disagreements (correspondence)
 	Tags     []string // extra tags discovered while running (branches hit)
+	Counts   map[string]int // extra counters (e.g. sub-evaluations inside one case), summed into the histogram
 	Note     string
 }
 
@@ -259,6 +260,9 @@ func main() {
 		atomic.StoreInt64(&currentIndex, -1)
 		for _, t := range v.Tags {
 			res.Tags[t]++
+		}
+		for t, n := range v.Counts {
+			res.Tags[t] += n
 		}
 		// separate quotas: mismatches must never crowd out a property violation
 		if len(v.Oracle) > 0 {
